@@ -56,11 +56,42 @@ def scenarios(tier):
   return out + pre
 
 
+def transport_scenarios(tier):
+  """The mux transport driven directly (harness of C11): what the stacks of the public builders never do to a transport, but its
+  owners may - e.g. Open() called again while requests are unanswered."""
+  return [('mux transport: Open() called again while a request is unanswered',
+           {'ops': [['req', 'a'], ['open'], ['req', 'b'], ['req', 'c']], 'max_adversarial': 0}, 2 if tier == 'quick' else 3)]
+
+
 def main(tier, seed):
-  return run(PROP, PREFIXES, scenarios(tier), tier, seed, 3 if tier == 'quick' else 4, RULE,
-             ASSUME + ['unique argument per call; the peer echoes it, so a reply identifies its request'])
+  from .. import explore
+  from ..report import Report
+  from . import c01
+  rep = Report(PROP, tier, seed, 'model_checking')
+  pool = explore.make_pool()
+  bound = 3 if tier == 'quick' else 4
+  try:
+    for name, params in scenarios(tier):
+      b = params.pop('_bound', bound)
+      agg = explore.explore('vt.stackharness', 'run_exec', params, b, seed=seed, pool=pool, split_levels=1 if b <= 2 else 2)
+      agg.violations = [v for v in agg.violations if v['clause'].startswith(PREFIXES)]
+      rep.add_explore(name, agg, b, params=params)
+    for name, params, b in transport_scenarios(tier):
+      agg = explore.explore('vt.checks.c11', 'run_exec', params, b, seed=seed, pool=pool, split_levels=1 if b <= 2 else 2)
+      agg.violations = [v for v in agg.violations if v['clause'].startswith('C02.')]
+      rep.add_explore(name, agg, b, params=params)
+  finally:
+    pool.close()
+    pool.join()
+  rep.assumptions += ASSUME + ['unique argument per call; the peer echoes it, so a reply identifies its request']
+  return rep.finish(rule=RULE, exhaustive=True)
 
 
 def replay(path):
+  import json
+  rp = json.load(open(path)).get('replay', {})
+  if 'stack' not in rp.get('params', {}):
+    from . import c11
+    return c11.replay(path)
   from . import c01
   return c01.replay(path)
